@@ -32,6 +32,12 @@ func TestGen(t *testing.T) {
 	n := envInt("VERIF_N", 1)
 	steps := int(envInt("VERIF_STEPS", 80))
 	os.MkdirAll(out, 0o755)
+	if os.Getenv("VERIF_FULLSNAP") != "" {
+		deltaDefault = false
+	}
+	if os.Getenv("VERIF_DELTACHECK") != "" {
+		deltaCheck = true
+	}
 	for i := int64(0); i < n; i++ {
 		seed := seed0 + i
 		name := fmt.Sprintf("%s_%d", corpus, seed)
